@@ -69,6 +69,7 @@ def handleLine (line : String) : String :=
     | "c12b" => C12.handleTokensBig args obs
     | "c13" => C12.handleShutdown args obs
     | "c13e" => C12.handleShutdownEmfile args obs
+    | "c13p" => C12.handlePermit args obs
     | "c08s" => C12.handleStall args obs
     | "c19s" => C19.handleSet args obs
     | "c19w" => C19.handleWriter args obs
